@@ -13,9 +13,12 @@ META = {
         "forwarder to the virtual DynX::dyn_method on **self (only Deref / the built-in Box deref and an unsizing reborrow of the rng in between), parameters in order, "
         "associated types Error = E (and Output = O) as in the hand-written impl; 28 Composable impls exist for the DynOperator pointers. A forwarder performs no other "
         "call, so returned value, error (converted) and the consumption of the random stream are those of the wrapped implementation. Obligations = 5 x (1 + 28 + 28 "
-        "associated-type checks) + matrix completeness; all must be discharged."),
+        "associated-type checks) + matrix completeness; all must be discharged. (R17.3) DynWeighted - the one library type that stores boxed erased selectors - returns the chosen "
+        "member's outcome unchanged (Ok as is, its error as DynWeightedError::Other(error)), calling it once with the caller's population and rng and drawing nothing besides "
+        "the weighted choice (canonical outcomes of DynWeighted::select)."),
     "rules": {
         "R17.1": "exactly one blanket DynX impl; its method forwards to X::method(self, params.., rng) wrapped only by map_err(Into::into)",
+        "R17.3": "DynWeighted (the holder of boxed erased selectors) returns the chosen member's outcome unchanged: Ok as is, its error as DynWeightedError::Other(error); one call with the caller's population and rng; no other draw",
         "R17.2": "28 pointer impls per trait (7 pointer kinds x 4 auto-trait sets, each once); each method forwards to DynX::dyn_method(**self, params.., &mut rng); assoc types as declared; 28 Composable impls for DynOperator pointers",
     },
     "trusted_base": ["rustc type checker / trait resolution / vtable dispatch of dyn DynX", "rand's blanket `impl RngCore for &mut R` forwards draws one-to-one", "std Deref impls of Box/Rc/Arc/Ref/RefMut", "uecfacts driver + uecheck rule engine"],
@@ -134,4 +137,48 @@ def check(ctx):
         if d and d[1] == "ec_core::operator::erased::DynOperator":
             cells.setdefault((d[0], d[2]), []).append(im)
     ctx.check(set(cells) == want_cells and all(len(v) == 1 for v in cells.values()), "R17.2", "DynOperator/Composable-matrix-7x4-complete", "%d impls" % len(cells))
+    check_dyn_weighted_members(ctx)
     ctx.floor("R17", len(ctx.obs), 5 * (1 + 28 + 28) + 1, "obligations")
+
+
+def check_dyn_weighted_members(ctx):
+    """R17.3: the one place in the library that *holds* type-erased selectors (DynWeighted's boxed members) hands the chosen
+    member's outcome back as it is - its Ok unchanged, its error as DynWeightedError::Other(that error) - calls it once with
+    the caller's population and generator, and draws nothing besides the weighted choice.  Stated over canonical outcomes."""
+    from . import ckit as K
+    from .pat import match, Through, Field, callee_is, path_ends
+    from .common import rng_passthrough, derives_from_self, cond_str
+    from .sym import short
+    f = ctx.fn("<ec_core::operator::selector::dyn_weighted::DynWeighted<P> as ec_core::operator::selector::Selector<P>>::select")
+    paths = K.live(ctx.cpaths(f))
+    seen = set()
+    good = bool(paths)
+    why = ""
+    for p in paths:
+        cw = K.calls_of(p, "IndexedRandom::choose_weighted")
+        sel = [c for c in p.calls() if callee_is(c, "Selector::select", "DynSelector::dyn_select")]
+        draws = [c for c in p.calls() if callee_is(c, "Rng::random", "Rng::random_range", "Rng::random_bool", "Rng::sample", "Distribution::sample", "IndexedRandom::choose", "IndexedRandom::choose_multiple", "SliceRandom::shuffle")]
+        kind, pay = K.outcome(p)
+        okp = len(cw) == 1 and not draws and derives_from_self(cw[0][3][0], field="selectors") and rng_passthrough(cw[0][3][1], 3)
+        if okp and K.discr_is(p, lambda o: o == cw[0], 1):
+            okp = not sel and kind == "err"
+            seen.add("no-choice")
+        elif okp:
+            okp = len(sel) == 1 and K.discr_is(p, lambda o: o == cw[0], 0) and K.strip(sel[0][3][1], calls=()) == ("param", 2) and rng_passthrough(sel[0][3][2], 3) and \
+                match(sel[0][3][0], Through(Field(Through(Field(lambda e: e == cw[0], 0, "Ok")), 0)))
+            if okp and K.discr_is(p, lambda o: o == sel[0], 0):
+                okp = kind == "ok" and K.strip(pay, calls=()) == ("field", sel[0], 0, "Ok")
+                seen.add("ok")
+            elif okp and K.discr_is(p, lambda o: o == sel[0], 1):
+                e = pay
+                okp = kind == "err" and e is not None and e[0] == "agg" and path_ends(e[2], "DynWeightedError::Other") and len(e[3]) == 1 and K.conv_free(e[3][0]) == ("field", sel[0], 0, "Err") and \
+                    e[3][0] == K.conv_free(e[3][0])
+                seen.add("err")
+            else:
+                okp = False
+        if not okp:
+            why = why or "[%s] -> %s" % (cond_str(p)[:200], short(p.ret, 6) if p.ret is not None else p.end)
+        good = good and okp
+    ctx.check(good and seen == {"no-choice", "ok", "err"}, "R17.3", "DynWeighted/chosen-erased-member's-outcome-returned-unchanged(Ok|Other(error))",
+              "3 canonical outcomes: weight error, member Ok, member Err -> Other(error)", f.at(),
+              bad_detail="DynWeighted::select must call the chosen boxed selector once with (population, rng) and return its Ok unchanged / its error as Other(error): " + why)
